@@ -99,15 +99,16 @@ type sched struct {
 	finMu    sync.Mutex
 	traceOn  bool
 
-	mutexes map[*value]*mutexState
-	rwms    map[*value]*rwState
-	wgs     map[*value]*wgState
-	onces   map[*value]*onceState
-	conds   map[*value]*condState
-	atomVC  map[*value]vclock
-	atomVal map[*value]value // atomic.Value / atomic.Pointer contents
-	shadows map[*value]*shadow
-	mainEnd bool
+	mutexes     map[*value]*mutexState
+	rwms        map[*value]*rwState
+	wgs         map[*value]*wgState
+	onces       map[*value]*onceState
+	conds       map[*value]*condState
+	atomVC      map[*value]vclock
+	atomVal     map[*value]value // atomic.Value / atomic.Pointer contents
+	shadows     map[*value]*shadow
+	mainEnd     bool
+	tryLockUsed bool
 
 	clock *clockState
 }
@@ -222,6 +223,16 @@ func (i *interpreter) schedPoint(th *thread, what string) {
 		return
 	}
 	i.reschedule(th, true)
+}
+
+// releasePoint: release operations (Unlock, RUnlock, WaitGroup.Done) are left movers: executing them before
+// any operation of another goroutine that was scheduled in between leads to the same state, so no scheduling
+// decision is taken before them (Lipton reduction). This does not hold once a TryLock variant is in play
+// (its result depends on the exact moment of the release), so then they are ordinary scheduling points.
+func (i *interpreter) releasePoint(th *thread, what string) {
+	if i.tryLockUsed || i.opts.Params["noreduce"] == 1 {
+		i.schedPoint(th, what)
+	}
 }
 
 // reschedule picks the next thread to run. canContinue: th itself is able to go on.
@@ -481,6 +492,7 @@ func (i *interpreter) mutexLock(th *thread, p *value) {
 }
 
 func (i *interpreter) mutexTryLock(th *thread, p *value) bool {
+	i.tryLockUsed = true
 	i.schedPoint(th, "Mutex.TryLock")
 	m := i.mutex(p)
 	if m.locked {
@@ -493,7 +505,7 @@ func (i *interpreter) mutexTryLock(th *thread, p *value) bool {
 }
 
 func (i *interpreter) mutexUnlock(th *thread, p *value) {
-	i.schedPoint(th, "Mutex.Unlock")
+	i.releasePoint(th, "Mutex.Unlock")
 	m := i.mutex(p)
 	if !m.locked {
 		i.fatal("sync: unlock of unlocked mutex")
@@ -540,6 +552,7 @@ func (i *interpreter) rwRLock(th *thread, p *value) {
 }
 
 func (i *interpreter) rwTryRLock(th *thread, p *value) bool {
+	i.tryLockUsed = true
 	i.schedPoint(th, "RWMutex.TryRLock")
 	m := i.rw(p)
 	if m.pending {
@@ -551,7 +564,7 @@ func (i *interpreter) rwTryRLock(th *thread, p *value) bool {
 }
 
 func (i *interpreter) rwRUnlock(th *thread, p *value) {
-	i.schedPoint(th, "RWMutex.RUnlock")
+	i.releasePoint(th, "RWMutex.RUnlock")
 	m := i.rw(p)
 	if m.active <= 0 {
 		i.fatal("sync: RUnlock of unlocked RWMutex")
@@ -580,6 +593,7 @@ func (i *interpreter) rwLock(th *thread, p *value) {
 }
 
 func (i *interpreter) rwTryLock(th *thread, p *value) bool {
+	i.tryLockUsed = true
 	i.schedPoint(th, "RWMutex.TryLock")
 	m := i.rw(p)
 	if m.wLocked || m.active > 0 {
@@ -594,7 +608,7 @@ func (i *interpreter) rwTryLock(th *thread, p *value) bool {
 }
 
 func (i *interpreter) rwUnlock(th *thread, p *value) {
-	i.schedPoint(th, "RWMutex.Unlock")
+	i.releasePoint(th, "RWMutex.Unlock")
 	m := i.rw(p)
 	if !m.wLocked || !m.pending {
 		i.fatal("sync: Unlock of unlocked RWMutex")
@@ -627,7 +641,11 @@ func (i *interpreter) wg(p *value) *wgState {
 }
 
 func (i *interpreter) wgAdd(th *thread, p *value, d int64) {
-	i.schedPoint(th, "WaitGroup.Add")
+	if d < 0 {
+		i.releasePoint(th, "WaitGroup.Done")
+	} else {
+		i.schedPoint(th, "WaitGroup.Add")
+	}
 	w := i.wg(p)
 	if d < 0 {
 		i.release(th, &w.vc)
